@@ -18,7 +18,14 @@ type Cond struct {
 // (and b itself) that has a single predecessor ending in an If, the condition of that If with the polarity of
 // the edge taken. Short-circuit && / || are already explicit control flow in SSA.
 func CondsAt(b *ssa.BasicBlock) []Cond {
+	return condsAt(b, 0)
+}
+
+func condsAt(b *ssa.BasicBlock, depth int) []Cond {
 	var out []Cond
+	if depth > 8 {
+		return out
+	}
 	for d := b; d != nil; d = d.Idom() {
 		if len(d.Preds) != 1 {
 			continue
@@ -34,17 +41,53 @@ func CondsAt(b *ssa.BasicBlock) []Cond {
 		if p.Succs[0] == p.Succs[1] {
 			continue
 		}
-		truth := p.Succs[0] == d
-		v := ifi.Cond
-		for {
-			if u, ok := v.(*ssa.UnOp); ok && u.Op == token.NOT {
-				v = u.X
-				truth = !truth
+		out = append(out, expandCond(ifi.Cond, p.Succs[0] == d, depth)...)
+	}
+	return out
+}
+
+// expandCond normalises a condition: strips negations, and decodes boolean phis produced by short-circuit
+// operators used as values (`case a || b:` in a tagless switch): if the phi has truth T, control came through
+// the one incoming edge whose value can be T, so that edge's value is T and the facts of that predecessor hold.
+func expandCond(v ssa.Value, truth bool, depth int) []Cond {
+	for {
+		if u, ok := v.(*ssa.UnOp); ok && u.Op == token.NOT {
+			v = u.X
+			truth = !truth
+			continue
+		}
+		break
+	}
+	out := []Cond{{v, truth}}
+	phi, ok := v.(*ssa.Phi)
+	if !ok || depth > 8 {
+		return out
+	}
+	cand := -1
+	n := 0
+	for i, e := range phi.Edges {
+		if c, ok := e.(*ssa.Const); ok && c.Value != nil && c.Value.Kind() == constant.Bool {
+			if constant.BoolVal(c.Value) != truth {
 				continue
 			}
-			break
 		}
-		out = append(out, Cond{v, truth})
+		cand = i
+		n++
+	}
+	if n != 1 {
+		return out
+	}
+	e := phi.Edges[cand]
+	if _, isConst := e.(*ssa.Const); !isConst {
+		out = append(out, expandCond(e, truth, depth+1)...)
+	}
+	pred := phi.Block().Preds[cand]
+	// facts on entry to the predecessor, plus the branch that led from it (if it ends in an If towards phi's block)
+	out = append(out, condsAt(pred, depth+1)...)
+	if len(pred.Instrs) > 0 {
+		if ifi, ok := pred.Instrs[len(pred.Instrs)-1].(*ssa.If); ok && pred.Succs[0] != pred.Succs[1] {
+			out = append(out, expandCond(ifi.Cond, pred.Succs[0] == phi.Block(), depth+1)...)
+		}
 	}
 	return out
 }
